@@ -279,7 +279,7 @@ func (e *c18Env) rollback() bool {
 	if floor == 0 && vs.Known(c18Test, c18KnownToZero) {
 		// known finding: unindexing history 1 deletes the index metadata and no history can be indexed afterwards
 		floor = 1
-		if disk <= 9 {
+		if disk <= 8 { // state id 0 was inside the drawable range
 			e.excluded++
 		}
 	}
